@@ -292,6 +292,41 @@ def gibbs_reconditioning(c, reps=1000):
     c.eq('joint_value_after_sampler_run_on_copy', J.logd(d=dv, s=sv, x=xp), ref)
 
 
+def gibbs_samplers_frame(c, iface):
+    """running a Gibbs sampler (which conditions the joint over and over and hands values between blocks) on a hierarchical model: the distributions the
+    model was built from - including the start points attached to the priors - evaluate as before, and chains already returned are not rewritten when the
+    same sampler continues (bounded stand-in: native)"""
+    import io, contextlib, copy as _copy
+    n = 3
+    A = np.eye(n); yobs = np.array([c.real(f'y{i}') for i in range(n)])
+    d = Gamma(1.0, 1e-2, name='d'); x = Gaussian(np.zeros(n), lambda d: 1 / d, name='x'); y = Gaussian(LinearModel(A), 0.5, name='y')
+    d0 = np.array([2.5]); x0 = np.array([0.3, -0.2, 0.1])
+    d.init_point = d0; x.init_point = x0                                   # (the way to choose the start of a legacy Gibbs chain)
+    J = JointDistribution(d, x, y)(y=yobs)
+    S0 = (frame.snapshot(d, EXC), frame.snapshot(x, EXC), frame.snapshot(y, EXC))
+    xp = np.array([c.real(f'x{i}') for i in range(n)]); dv = c.real('dv', pos=True)
+    ref = J.logd(d=dv, x=xp)
+    np.random.seed(int(c.real('seed', lo=0, hi=10 ** 6)))
+    with contextlib.redirect_stdout(io.StringIO()), contextlib.redirect_stderr(io.StringIO()):
+        if iface == 'legacy':
+            G = cuqi.sampler.Gibbs(J, {'d': cuqi.sampler.Conjugate, 'x': cuqi.sampler.LinearRTO})
+            first = G.sample(3)
+            kept = {k: np.array(v.samples, dtype=float).copy() for k, v in first.items()}
+            G.sample(2)
+            for k in kept: c.eq(f'chain_of_{k}_returned_earlier_is_not_rewritten_by_continuing', np.asarray(first[k].samples, dtype=float), kept[k], tol=0)
+        else:
+            G = cuqi.experimental.mcmc.HybridGibbs(J, {'d': cuqi.experimental.mcmc.Conjugate(), 'x': cuqi.experimental.mcmc.LinearRTO()})
+            G.warmup(2); G.sample(3)
+            first = G.get_samples(); kept = {k: np.array(v.samples, dtype=float).copy() for k, v in first.items()}
+            G.sample(2)
+            for k in kept: c.eq(f'chain_of_{k}_returned_earlier_is_not_rewritten_by_continuing', np.asarray(first[k].samples, dtype=float), kept[k], tol=0)
+    S1 = (frame.snapshot(d, EXC), frame.snapshot(x, EXC), frame.snapshot(y, EXC))
+    c.holds('original_distributions_unchanged_by_the_run', frame.same(S0, S1), note='; '.join(frame.diff(S0, S1)))
+    c.eq('start_points_attached_to_the_priors_unchanged', np.concatenate([np.ravel(d.init_point), np.ravel(x.init_point)]), np.concatenate([[2.5], [0.3, -0.2, 0.1]]), tol=0)
+    c.holds('start_point_arrays_are_still_the_users_arrays', d.init_point is d0 and x.init_point is x0)
+    c.eq('joint_evaluates_as_before', J.logd(d=dv, x=xp), ref)
+
+
 def jobs(tier):
     J = []
     FL = ['cuqi.density._density:Density._make_copy', 'cuqi.distribution._distribution:Distribution._condition', 'cuqi.distribution._distribution:Distribution.logd',
@@ -307,5 +342,8 @@ def jobs(tier):
     J.append(Job('frame:BayesianProblem.sample_prior_leaves_the_problem_unchanged', problem_sample_prior, 'B', ['cuqi.problem._problem:BayesianProblem.sample_prior'], nnum=1))
     J.append(Job('frame:model_application_and_reconditioning', model_application, 'Pbox', FL))
     J.append(Job('frame:shared_geometry_object', shared_geometry, 'Pbox', ['cuqi.distribution._distribution:Distribution.geometry']))
+    for iface in ('legacy', 'experimental'):
+        J.append(Job(f'frame:{iface}_Gibbs_run_leaves_the_model_and_returned_chains_unchanged', lambda c, i=iface: gibbs_samplers_frame(c, i), 'B',
+                     ['cuqi.sampler._gibbs:Gibbs.step', 'cuqi.sampler._gibbs:Gibbs._get_initial_points'] if iface == 'legacy' else ['cuqi.experimental.mcmc._gibbs:HybridGibbs.step'], nnum=2))
     J.append(Job('history:thousand_reconditionings_and_sampler_run', lambda c: gibbs_reconditioning(c, 300 if tier == 'quick' else 3000), 'B', FL, nnum=2))
     return J
